@@ -19,7 +19,7 @@ __CPROVER_requires(VTMF_INV(self) && MPZ_OK(x) && MPZ_OK(y) && MPZ_OK(gg) && MPZ
 /* documented usage of the fixed-base path (CP_Prove asserts the same): the bases are the table bases */
 __CPROVER_requires(fpowm_usage ==> V(gg) == G && V(hh) == H)
 __CPROVER_requires(in->pos + 2 <= in->ntok ==> WORD_OK(in->tok[in->pos + 1]))
-__CPROVER_assigns(in->pos, in->fail, __tmcg_thrown)
+__CPROVER_assigns(IOS_IN_ASSIGNS(in), __tmcg_thrown)
 /* only std::runtime_error can escape: a malformed number in the stream, or (fixed-base path) a negative
  * response whose power is not invertible */
 __CPROVER_ensures(__tmcg_thrown == 0 || (__tmcg_thrown == TMCG_EXC_runtime_error &&
@@ -39,7 +39,7 @@ __CPROVER_ensures(__CPROVER_return_value ==
 //@ contract
 __CPROVER_requires(VTMF_INV(self) && MPZ_OK(y_1) && MPZ_OK(y_2) && MPZ_OK(g_1) && MPZ_OK(g_2) && IOS_IN_OK(in) && __tmcg_thrown == 0)
 __CPROVER_requires(in->pos + 4 <= in->ntok ==> WORD_OK(in->tok[in->pos]) && WORD_OK(in->tok[in->pos + 1]) && WORD_OK(in->tok[in->pos + 2]) && WORD_OK(in->tok[in->pos + 3]))
-__CPROVER_assigns(in->pos, in->fail, __tmcg_thrown)
+__CPROVER_assigns(IOS_IN_ASSIGNS(in), __tmcg_thrown)
 __CPROVER_ensures(__tmcg_thrown == 0 || (__tmcg_thrown == TMCG_EXC_runtime_error && in->fail))
 /* accepted exactly when four numbers c1, c2, r1, r2 arrive, r1 and r2 are in range and
  * (c1 + c2) mod q = H(p, q, g, h, g1, y1, g2, y2, y1^c1 g1^r1, y2^c2 g2^r2) mod q */
